@@ -200,6 +200,10 @@ impl CheckedBackend {
             &self.closed,
         );
         self.check_failure()?;
+        // Verification hook (C20): lets a harness hold a reader between the latch check and the
+        // backend call, to order it against a concurrent close()
+        #[cfg(all(redb_verif, not(redb_no_std)))]
+        crate::verif::pause("CB.read.checked");
         let result = self.file.read(offset, out);
         if result.is_err() {
             self.io_failed.store(true, Ordering::Release);
